@@ -14,9 +14,9 @@ LEAN_CONE = ['PncModel.Words', 'PncModel.Camx.Uamiv', 'PncModel.Camx.Slab', 'Pnc
              'PncProofs.BridgeLemmas', 'PncProofs.C13']
 LEMMA_FILES = ['PncProofs/SlabLemmas.lean', 'PncProofs/BridgeLemmas.lean']
 REQUIRED_THEOREMS = ['chunk_records', 'leading_eq', 'mm_decode_encode', 'single_step_rejected']
-RULE = ('wind files (both time-header variants) and files of the formats that have both reader families and a uniform layout (one3d, humidity, vertical '
+RULE = ('wind files (both time-header variants, 1-9 time steps) and files of the formats that have both reader families and a uniform layout (one3d, humidity, vertical '
         'diffusivity, temperature, height/pressure: 2-4 steps, 1-3 layers, 1-4 rows and columns, hour steps of 1 or 3 '
-        'incl. midnight and year-end starts, any float32 payload; gridded average files in the domain of the record '
+        'incl. midnight and year-end starts, also 6, 12 and 24 hour steps over up to 6 steps (several midnights), readers called with and without rows/columns, any float32 payload; gridded average files in the domain of the record '
         'reader): the bytes of the python reference encoder (= the Lean encoder, compared) are read by the Memmap '
         'reader and by the Read reader; both views (dimension lengths, data of every variable as float32 bits, time '
         'flags where both define them) are compared with the Lean reader model and with each other; non-trivial = at '
@@ -40,16 +40,22 @@ def gen(rng, tier):
             c = camx.gen_uamiv_read_domain(rng) if i % 10 == 4 else camx.gen_uamiv_emis2d(rng)
             c['family'] = 'uamiv'
         else:
-            c = S.gen(rng)
+            # every format with every kind of time axis on every run: the format cycles with the case number, the
+            # step class (hourly / 12 h / whole days / 6 h) with the round
+            fmts = sorted(S.FORMATS)
+            c = S.gen(rng, fmt=fmts[(i // 5 * 3 + i % 5) % len(fmts)], longspan=[False, 12, False, 24, False, 6][(i // 25) % 6])
             c['family'] = 'slab'
+            # both reader families accept a call without rows and columns for these formats
+            c['noshape'] = c['fmt'] != 'height_pressure' and rng.random() < 0.25
         out.append(c)
     return out
 
 
 def _read(c, path, which):
     try:
-        f = S.open_reader(c, path, which)
-        return S.view(f, c)
+        with lib.time_limit(20):
+            f = S.open_reader(c, path, which)
+            return S.view(f, c)
     except lib.HarnessError:
         raise
     except Exception as e:
@@ -63,7 +69,8 @@ def impl(case):
             res = dict(hex=b.hex())
             for which in ('memmap', 'read'):
                 try:
-                    res[which] = camx.read_with_library(b, which)
+                    with lib.time_limit(20):
+                        res[which] = camx.read_with_library(b, which)
                 except lib.HarnessError:
                     raise
                 except Exception as e:
@@ -77,7 +84,8 @@ def impl(case):
             try:
                 for which in ('memmap', 'read'):
                     try:
-                        res[which] = S.wind_view(S.wind_open(case, p, which), case)
+                        with lib.time_limit(20):
+                            res[which] = S.wind_view(S.wind_open(case, p, which), case)
                     except lib.HarnessError:
                         raise
                     except Exception as e:
